@@ -77,14 +77,16 @@ def run(chk):
         key = json.dumps([sorted(spec), k])
         if key not in filecache:
             arrs = {f: make_array(f, n, w, k + len(filecache), rng) for (f, n, w) in spec}
+            # a second tree with the same column names and shapes but other values: the data_key option selects the tree
+            arrs2 = {f: (a + 1).astype(a.dtype) for f, a in arrs.items()}
             fn = os.path.join(chk.scratch, f'f{len(filecache)}.asdf')
             if len(filecache) % 2:
                 # every second file is blsc-compressed (blocks rewritten with the repository's own compressor)
                 from blscfile import write_blsc
-                write_blsc(fn, {'header': {'k': k}, 'data': arrs}, cbs=16)
+                write_blsc(fn, {'header': {'k': k}, 'data': arrs, 'subsamples': arrs2}, cbs=16)
             else:
-                asdf.AsdfFile({'header': {'k': k}, 'data': arrs}).write_to(fn)
-            filecache[key] = (fn, arrs)
+                asdf.AsdfFile({'header': {'k': k}, 'data': arrs, 'subsamples': arrs2}).write_to(fn)
+            filecache[key] = (fn, {'data': arrs, 'subsamples': arrs2})
         return filecache[key]
 
     runs = []
@@ -98,6 +100,8 @@ def run(chk):
             fns.append(fn)
             arrs.append(a)
         exp = c['out']
+        dk = 'subsamples' if (ci % 4 == 1 and ci % 3 != 0) else 'data'      # the CLI (every 3rd / 9th case) has no data_key option
+        arrs = [a[dk] for a in arrs]
         want = b''
         if not exp['error']:
             for t in exp['tokens']:
@@ -110,12 +114,12 @@ def run(chk):
         tagk = f'{len(c["files"])}files-{"rep" if len(set(c["fields"])) < len(c["fields"]) else "distinct"}'
         pipe = RecPipe()
         try:
-            unpack_to_pipe(fns, list(c['fields']), pipe=pipe, verbose=False)
+            unpack_to_pipe(fns, list(c['fields']), pipe=pipe, verbose=False, **({} if dk == 'data' else dict(data_key=dk)))
             err = ''
         except Exception as e:  # noqa
             err = type(e).__name__
         nrun += 1
-        desc = f'files={[[(f, n, w) for f, n, w in s] for s in c["files"]]} exists={c["exists"]} fields={c["fields"]}'
+        desc = f'files={[[(f, n, w) for f, n, w in s] for s in c["files"]]} exists={c["exists"]} fields={c["fields"]}' + ('' if dk == 'data' else f' data_key={dk}')
         if exp['error']:
             if not err:
                 chk.violation(f'no-error-{exp["error"]}', f'{desc}: expected {exp["error"]}, got {len(pipe.data)} bytes', dict(case=c))
